@@ -233,7 +233,11 @@ func (m *StreamModel) GenBatch(tp *simcore.Tape, o BatchOpts, batchNo int) []*SR
 			case t.Name == "wid":
 				r.Tags[t.Name] = TInt(r.Wid)
 			default:
-				r.Tags[t.Name] = GenTag(tp, t.Type, o.NullOK)
+				if o.Plain {
+					r.Tags[t.Name] = PlainTag(tp, t.Type)
+				} else {
+					r.Tags[t.Name] = GenTag(tp, t.Type, o.NullOK)
+				}
 			}
 		}
 		out = append(out, r)
